@@ -1,0 +1,17 @@
+//go:build verif
+
+package jrpc2
+
+import "sort"
+
+// verifOrderKeys puts segment keys collected from a map (random iteration
+// order) into a canonical order, so that which of several segments with the
+// same start survives pruneSegments is reproducible under simulation.
+func verifOrderKeys(keys []key) {
+	sort.Slice(keys, func(i, j int) bool {
+		if keys[i].a != keys[j].a {
+			return keys[i].a < keys[j].a
+		}
+		return keys[i].b < keys[j].b
+	})
+}
